@@ -31,33 +31,37 @@ WATCH = ("_cache_failed", "_cache_successful", "_lock", "_login")
 
 
 def yield_lines():
-    """Line numbers (in radicale/auth/__init__.py) of the statements of BaseAuth.login that touch the caches, the
-    lock or the back-end: the scheduling points."""
-    src = open(os.path.join(core.REPO, "radicale/auth/__init__.py")).read()
-    tree = ast.parse(src)
+    """(lines, function names): the scheduling points.  In BaseAuth.login: the statements that touch an attribute of self
+    that login or one of its callees writes, the lock, or that call a method of self (incl. the back-end `_login`);
+    in every BaseAuth method that login (transitively) calls: EVERY line (so a thread can be suspended inside
+    `_cache_digest`, between hashlib calls, inside `_sleep_for_constant_exec_time`, ...)."""
+    from translate import t_c17
+    an = t_c17.class_analysis(core.REPO)
+    watch = set(an["written"]) | {"_lock", "_login"} | set(an["methods"])
     lines = set()
-    for node in ast.walk(tree):
-        if isinstance(node, ast.FunctionDef) and node.name == "login":
-            for st in ast.walk(node):
-                if not isinstance(st, ast.stmt) or st is node:
-                    continue
-                # header expression(s) of compound statements, whole simple statements
-                if isinstance(st, (ast.If, ast.While)):
-                    parts = [st.test]
-                elif isinstance(st, ast.For):
-                    parts = [st.iter, st.target]
-                elif isinstance(st, ast.With):
-                    parts = [i.context_expr for i in st.items]
-                elif isinstance(st, (ast.Try, ast.FunctionDef)):
-                    parts = []
-                else:
-                    parts = [st]
-                for p in parts:
-                    for sub in ast.walk(p):
-                        if isinstance(sub, ast.Attribute) and sub.attr in WATCH and isinstance(sub.value, ast.Name) \
-                                and sub.value.id == "self":
-                            lines.add(st.lineno)
-    return lines
+    for name, fn in an["methods"].items():
+        for st in ast.walk(fn):
+            if not isinstance(st, ast.stmt) or st is fn:
+                continue
+            if name != "login":
+                lines.add(st.lineno)
+                continue
+            if isinstance(st, (ast.If, ast.While)):
+                parts = [st.test]
+            elif isinstance(st, ast.For):
+                parts = [st.iter, st.target]
+            elif isinstance(st, ast.With):
+                parts = [i.context_expr for i in st.items]
+            elif isinstance(st, (ast.Try, ast.FunctionDef)):
+                parts = []
+            else:
+                parts = [st]
+            for p in parts:
+                for sub in ast.walk(p):
+                    if isinstance(sub, ast.Attribute) and sub.attr in watch and isinstance(sub.value, ast.Name) \
+                            and sub.value.id == "self":
+                        lines.add(st.lineno)
+    return lines, set(an["methods"])
 
 
 class Hang(Exception):
@@ -70,23 +74,28 @@ class CoopLock:
     def __init__(self, sched):
         self.sched = sched
         self.owner = None
+        self.held = False
 
     def acquire(self, blocking=True, timeout=-1):
         tid = self.sched.current
-        while self.owner is not None:
+        while self.held:
             if not blocking:
                 return False
+            if tid is None:
+                raise Hang("sequential login blocks on the cache lock")
             self.sched.park(tid, blocked_on=self)
         self.owner = tid
+        self.held = True
         return True
 
     def release(self):
-        if self.owner is None:
+        if not self.held:
             raise RuntimeError("release unlocked lock")
         self.owner = None
+        self.held = False
 
     def locked(self):
-        return self.owner is not None
+        return self.held
 
     def __enter__(self):
         self.acquire()
@@ -101,8 +110,9 @@ class Sched:
     """Runs the worker threads one at a time.  `choose(runnable, step, current)` picks the next thread."""
 
     def __init__(self, lines, code, timeout=5.0):
-        self.lines = lines
+        self.lines, self.funcs = lines
         self.code = code
+        self.filename = code.co_filename
         self.timeout = timeout
         self.current = None
         self.sems = {}
@@ -138,7 +148,7 @@ class Sched:
             return local
 
         def glob(frame, event, arg):
-            if event == "call" and frame.f_code is self.code:
+            if event == "call" and frame.f_code.co_filename == self.filename and frame.f_code.co_name in self.funcs:
                 return local
             return None
         return glob
@@ -221,6 +231,8 @@ class ThreadClock:
     def __init__(self, base, sched, offsets):
         self.base, self.sched, self.offsets = base, sched, offsets
 
+    reads = 0
+
     def time_ns(self):
         cur = self.sched.current if self.sched is not None else None
         return self.base + (self.offsets[cur] if cur is not None and cur < len(self.offsets) else 0)
@@ -269,9 +281,31 @@ def run_schedule(scn, lines, choose):
         a._lock = lock
         auth.time = ThreadClock(clock.t, sched, [t[2] for t in scn["threads"]])
         fns = [(lambda l=l, p=p: a.login(l, p)[0]) for l, p, _ in scn["threads"]]
+        ncalls0 = len(a.calls)
         outcome, choices = sched.run(fns, choose)
         results = tuple(sched.results.get(i, ("hang", "")) for i in range(len(fns)))
-        return dict(outcome=outcome, results=results, choices=choices, lock_left_held=lock.locked(), trace=list(sched.trace))
+        rec = dict(outcome=outcome, results=results, choices=choices, lock_left_held=lock.locked(), trace=list(sched.trace))
+        # follow-up logins, sequentially, after the racing threads: the damage of a race may only show later
+        rec["followups"] = []
+        if outcome == "ok" and not lock.locked() and all(r[0] == "ret" for r in results):
+            sched.current = None
+            now = clock.t + max([t[2] for t in scn["threads"]] + [0])
+            auth.time = ThreadClock(now, None, [])
+            seen = []
+            for l, p in [tuple(t[:2]) for t in scn["threads"]] + [tuple(f) for f in scn.get("followups", [])]:
+                if (l, p) in seen:
+                    continue
+                seen.append((l, p))
+                nc = len(a.calls)
+                try:
+                    out = ("ret", a.login(l, p)[0])
+                except Exception as e:  # noqa: BLE001
+                    out = ("raise", type(e).__name__)
+                rec["followups"].append(dict(login=l, pw=p, out=out, now=now, own_calls=a.calls[nc:], earlier_calls=a.calls[:nc]))
+        rec["thread_calls"] = a.calls[ncalls0:]
+        rec["all_calls"] = list(a.calls)
+        rec["base"] = clock.t
+        return rec
     finally:
         restore_time()
 
@@ -325,10 +359,38 @@ def judge(scn, rec, serial):
         return ("concurrent-terminates", "threads do not all terminate (%s): %r" % (rec["outcome"], rec["results"]))
     if rec["lock_left_held"]:
         return ("concurrent-lock-released", "the cache lock is still held after all threads finished: every later login blocks")
+    # every answer -- of the racing logins and of the follow-up logins after them -- must be backed by a verdict of the
+    # back-end for the same (mapped) login and password: its own call, or one within the respective lifetime
+    cfg = scn["cfg"]
+    if X.cache_enabled(cfg):
+        for i, r in enumerate(rec["results"]):
+            l, p, off = scn["threads"][i]
+            why = unjustified(cfg, X.map_login_spec(cfg, l), p, r[1], rec["base"] + off, rec["all_calls"], [])
+            if why:
+                return ("concurrent-justified", "thread %d login(%r, %r) -> %r: %s" % (i, l, p, r[1], why))
+        for f in rec.get("followups", []):
+            if f["out"][0] == "raise":
+                return ("followup-never-raises", "after the concurrent logins, login(%r, %r) raised %s" % (f["login"], f["pw"], f["out"][1]))
+            why = unjustified(cfg, X.map_login_spec(cfg, f["login"]), f["pw"], f["out"][1], f["now"], f["earlier_calls"], f["own_calls"])
+            if why:
+                return ("followup-justified", "after the concurrent logins %r finished, login(%r, %r) -> %r: %s" % (
+                    [t[:2] for t in scn["threads"]], f["login"], f["pw"], f["out"][1], why))
     if rec["results"] not in set(serial.values()):
         return ("concurrent-serializable", "users returned %r equal no serial order (%s)" % (
             rec["results"], "; ".join("%s -> %r" % (o, r) for o, r in serial.items())))
     return None
+
+
+def unjustified(cfg, m, pw, user, now, earlier, own):
+    """None when the answer `user` for (m, pw) at clock `now` is backed by a back-end call: one of `own`, or one of
+    `earlier` (which, for a racing thread, includes the calls of the other threads) within the lifetime."""
+    life = cfg["exp_s"] if user != "" else cfg["exp_f"]
+    if any(c[1] == m and c[2] == pw and c[3] == user for c in own):
+        return None
+    if any(c[1] == m and c[2] == pw and c[3] == user and X.age_spec(now, c[0]) <= life for c in earlier):
+        return None
+    return "the back-end never %s (%r, %r) now or within %d s" % (
+        "answered %r for" % user if user != "" else "rejected", m, pw, life)
 
 
 def check_scenario(scn, lines, max_preemptions, rng=None, n_random=0, budget=4000):
@@ -339,7 +401,8 @@ def check_scenario(scn, lines, max_preemptions, rng=None, n_random=0, budget=400
         n += 1
         bad = judge(scn, rec, serial)
         if bad:
-            return n, dict(rule=bad[0], text=bad[1], schedule=list(taken), results=rec["results"], trace=rec["trace"])
+            return n, dict(rule=bad[0], text=bad[1], schedule=list(taken), results=rec["results"], trace=rec["trace"],
+                           followups=[(f["login"], f["pw"], f["out"]) for f in rec.get("followups", [])])
     for _ in range(n_random):
         picks = []
 
@@ -351,7 +414,8 @@ def check_scenario(scn, lines, max_preemptions, rng=None, n_random=0, budget=400
         n += 1
         bad = judge(scn, rec, serial)
         if bad:
-            return n, dict(rule=bad[0], text=bad[1], schedule=picks, results=rec["results"], trace=rec["trace"])
+            return n, dict(rule=bad[0], text=bad[1], schedule=picks, results=rec["results"], trace=rec["trace"],
+                           followups=[(f["login"], f["pw"], f["out"]) for f in rec.get("followups", [])])
     return n, None
 
 
